@@ -157,6 +157,8 @@ package parsley
 //@ -- the window [GhostLo, GhostHi] of the innermost active parser: its start position and the end of input
 //@ ghost GhostLo Pos
 //@ ghost GhostHi Pos
+//@ -- allocation mark of the innermost running sequence: list arrays it builds lie at or above it
+//@ ghost GhostSeqMark int
 
 //@ -- GhostSpare(a): somebody holds the permission to append in place into the spare capacity of array a.
 //@ -- Created (true) by whoever allocates a list array, required by every in-place append, cleared by Memoize
@@ -285,8 +287,8 @@ package parsley
 //@   ensures  [PC6;C06] err != nil ==> err.Pos() <= GhostMaxFail
 //@   ensures  [mono] (old(GhostCurtailed) ==> GhostCurtailed) && GhostMaxFail >= old(GhostMaxFail) && GhostCalls > old(GhostCalls)
 //@   ensures  [floor;C02] GhostFloorPos == old(GhostFloorPos) && same(GhostFloorLrc, old(GhostFloorLrc))
-//@   assigns  ctx.err, ctx.callCount, maps[ResultCache](), maps[map[Pos]*Result](), maps[map[string]*regexp.Regexp](), GhostCurtailed, GhostMaxFail, GhostCalls, GhostFloorPos, GhostFloorLrc, GhostLo, GhostHi, GhostSpare
-//@   ensures  [window] GhostLo == old(GhostLo) && GhostHi == old(GhostHi)
+//@   assigns  ctx.err, ctx.callCount, maps[ResultCache](), maps[map[Pos]*Result](), maps[map[string]*regexp.Regexp](), GhostCurtailed, GhostMaxFail, GhostCalls, GhostFloorPos, GhostFloorLrc, GhostLo, GhostHi, GhostSeqMark, GhostSpare
+//@   ensures  [window] GhostLo == old(GhostLo) && GhostHi == old(GhostHi) && GhostSeqMark == old(GhostSeqMark)
 //@   ghost_entry GhostLo = pos
 //@   ghost_entry GhostHi = Eof(ctx.reader, pos)
 //@   ghost_return GhostLo = old(GhostLo)
